@@ -107,12 +107,34 @@ func compareRegistry(r lint.Registry, want []lintDesc) []string {
 	if !sort.StringsAreSorted(got) {
 		bad = append(bad, "Names() not sorted")
 	}
+	// two-step sequence: the caller edits the slice it was handed (reverses it, blanks an entry, filters it in
+	// place) — that is the caller's own copy, the next listing must be unaffected
+	for i, j := 0, len(got)-1; i < j; i, j = i+1, j-1 {
+		got[i], got[j] = got[j], got[i]
+	}
+	if len(got) > 0 {
+		got[0] = ""
+		_ = append(got[:0], "zz_scribble")
+	}
+	if again := r.Names(); !reflect.DeepEqual(append([]string{}, again...), wn) && !(len(again) == 0 && len(wn) == 0) {
+		bad = append(bad, fmt.Sprintf("Names() differs after the caller edited the slice returned by the previous call: the registry hands out its own backing array (%s)", firstDiff(again, wn)))
+	}
 	gs := map[lint.LintSource]bool{}
-	for _, s := range r.Sources() {
+	srcList := r.Sources()
+	for _, s := range srcList {
 		if gs[s] {
 			bad = append(bad, "Sources() lists "+string(s)+" twice")
 		}
 		gs[s] = true
+	}
+	for i := range srcList {
+		srcList[i] = "zz_scribble"
+	}
+	for _, s := range r.Sources() {
+		if !gs[s] {
+			bad = append(bad, "Sources() differs after the caller edited the list returned by the previous call")
+			break
+		}
 	}
 	if !reflect.DeepEqual(gs, srcs) {
 		bad = append(bad, fmt.Sprintf("Sources(): got %v, model %v", keysOf(gs), keysOf(srcs)))
